@@ -17,6 +17,37 @@
 #include <foonathan/memory/container.hpp>
 #include <foonathan/memory/std_allocator.hpp>
 
+namespace foonathan
+{
+    namespace memory
+    {
+        template <>
+        struct propagation_traits<cs::Leaf<true, false, 3>>
+        {
+            using propagate_on_container_swap            = std::true_type;
+            using propagate_on_container_move_assignment = std::false_type;
+            using propagate_on_container_copy_assignment = std::false_type;
+            template <class AllocReference>
+            static AllocReference select_on_container_copy_construction(const AllocReference& alloc)
+            {
+                return alloc;
+            }
+        };
+        template <>
+        struct propagation_traits<cs::Leaf<true, false, 4>>
+        {
+            using propagate_on_container_swap            = std::true_type;
+            using propagate_on_container_move_assignment = std::true_type;
+            using propagate_on_container_copy_assignment = std::false_type;
+            template <class AllocReference>
+            static AllocReference select_on_container_copy_construction(const AllocReference& alloc)
+            {
+                return alloc;
+            }
+        };
+    } // namespace memory
+} // namespace foonathan
+
 namespace cs
 {
     // element types: an int value padded to a size / alignment
@@ -248,6 +279,14 @@ namespace cs
     using AlStateless = fm::std_allocator<U, StatelessLeaf<1>>;
     template <class U>
     using AlRef = std::allocator<U>;
+    // leaves whose propagation is set by a propagation_traits specialisation (below): P3 propagates on swap
+    // only, P4 on swap and move assignment
+    using LeafP3 = Leaf<true, false, 3>;
+    using LeafP4 = Leaf<true, false, 4>;
+    template <class U>
+    using AlP3 = fm::std_allocator<U, LeafP3>;
+    template <class U>
+    using AlP4 = fm::std_allocator<U, LeafP4>;
 
     struct ContCtx
     {
